@@ -359,4 +359,41 @@ SPLIT_POST(_next_push_index, 1, 0, 1)
 //@  __CPROVER_loop_invariant(@l3:version@ == (unsigned short)@p1:current_version_and_waiters@)
 //@  __CPROVER_loop_invariant(VER(@p1:current_version_and_waiters@) != g_E || VER(*g_w) == g_E)
 //@end
+
+/* ---- try_push_n / try_pop_n (non-blocking batches): the batch [index, index+num) is offered to try_deal_n_continuously in one or two
+ * calls; a call never crosses a round of the ring; the second call is made only when the first one dealt its whole segment and it
+ * covers exactly the rest of the batch (no more slots than were asked for); the result is the number of slots dealt. */
+unsigned long g_seg_ret[3]; int g_seg_conc[3];
+static size_t try_seg(int conc, int wake, int push, unsigned long index, unsigned long num) {
+  unsigned long k = g_segs;
+  seg_record(0, wake, push, index, num);
+  unsigned long r = nondet_u64(); __CPROVER_assume(r <= num);
+  if (k < 3) { g_seg_ret[k] = r; g_seg_conc[k] = conc; }
+  return r;
+}
+#ifdef VF_HAVE_Q_try_deal_n_continuously__1_1_1_CbNRef
+size_t Q_try_deal_n_continuously__1_1_1_CbNRef(Q_t *q, struct CbN *cb, unsigned long index, unsigned long num) { return try_seg(1, 1, 1, index, num); }
+#endif
+#ifdef VF_HAVE_Q_try_deal_n_continuously__1_1_0_CbNRef
+size_t Q_try_deal_n_continuously__1_1_0_CbNRef(Q_t *q, struct CbN *cb, unsigned long index, unsigned long num) { return try_seg(1, 1, 0, index, num); }
+#endif
+#define TRY_SPLIT_POST(FIELD, P) \
+  __CPROVER_ensures(g_segs == 1 || g_segs == 2) \
+  __CPROVER_ensures(g_seg_index[0] == q->FIELD && (g_seg_index[0] & q->_slot_mask) + g_seg_num[0] <= q->_slot_mask + 1 && g_seg_num[0] <= num) \
+  __CPROVER_ensures(g_seg_num[0] == (num <= q->_slot_mask + 1 - (g_seg_index[0] & q->_slot_mask) ? num : q->_slot_mask + 1 - (g_seg_index[0] & q->_slot_mask))) \
+  __CPROVER_ensures(g_segs == 2 ==> (g_seg_ret[0] == g_seg_num[0] && g_seg_index[1] == g_seg_index[0] + g_seg_num[0] && g_seg_num[1] == num - g_seg_num[0] && g_seg_num[1] >= 1 \
+                    && (g_seg_index[1] & q->_slot_mask) + g_seg_num[1] <= q->_slot_mask + 1)) \
+  __CPROVER_ensures((g_segs == 1 && g_seg_num[0] < num) ==> g_seg_ret[0] < g_seg_num[0]) \
+  __CPROVER_ensures(__CPROVER_return_value == (g_segs == 1 ? g_seg_ret[0] : g_seg_ret[0] + g_seg_ret[1])) \
+  __CPROVER_ensures(g_seg_wake[0] == 1 && g_seg_push[0] == P && g_seg_conc[0] == 1 && (g_segs == 1 || (g_seg_wake[1] == 1 && g_seg_push[1] == P && g_seg_conc[1] == 1)))
+size_t Q_try_push_n__1_1_CbNRef_void(Q_t *q, struct CbN *cb, unsigned long num)
+__CPROVER_requires(QSHAPE_NOSLOTS(q) && num >= 1 && num <= q->_slot_mask + 1 && q->_next_push_index <= (1UL << 62) && g_segs == 0)
+__CPROVER_assigns(g_segs, __CPROVER_object_whole(g_seg_index), __CPROVER_object_whole(g_seg_num), __CPROVER_object_whole(g_seg_wait), __CPROVER_object_whole(g_seg_wake), __CPROVER_object_whole(g_seg_push), __CPROVER_object_whole(g_seg_ret), __CPROVER_object_whole(g_seg_conc))
+TRY_SPLIT_POST(_next_push_index, 1)
+;
+size_t Q_try_pop_n__1_1_CbNRef_void(Q_t *q, struct CbN *cb, unsigned long num)
+__CPROVER_requires(QSHAPE_NOSLOTS(q) && num >= 1 && num <= q->_slot_mask + 1 && q->_next_pop_index <= (1UL << 62) && g_segs == 0)
+__CPROVER_assigns(g_segs, __CPROVER_object_whole(g_seg_index), __CPROVER_object_whole(g_seg_num), __CPROVER_object_whole(g_seg_wait), __CPROVER_object_whole(g_seg_wake), __CPROVER_object_whole(g_seg_push), __CPROVER_object_whole(g_seg_ret), __CPROVER_object_whole(g_seg_conc))
+TRY_SPLIT_POST(_next_pop_index, 0)
+;
 #endif
